@@ -97,6 +97,22 @@ def runCase (line : String) : String :=
       let s := runSite M32 r0 progs sched
       "/".intercalate (s.ts.map fun t => s!"i{t.cur}") ++ s!" => {showProbes s.reg probes}"
     | _, _, _, _, _ => "bad-case"
+  | ["race", ser, pre, progs, parent] =>
+    -- free-running threads all calling the atomic find-or-register for the same identities: the shape that every
+    -- merge of the programs yields (one id per distinct query, one child per identity) is printed for one merge
+    match ser.toNat?, (words pre).mapM parseOp, (progs.splitOn "/").mapM (fun p => (words p).mapM parseOp), parent.toNat? with
+    | some ser, some pre, some progs, some parent =>
+      let r0 := (run M32 ⟨ser, []⟩ pre).1
+      let ops := progs.flatten
+      let r := run M32 r0 ops
+      let qs := (progs.headD []).map fun o => (ops.zip r.2).filterMap fun (o', ret) =>
+        if o' == o then (match ret with | .id n => some n | _ => none) else none
+      let sizes := qs.zip (progs.headD []) |>.map (fun (ids, _) => (ids.eraseDups).length)
+      -- sizes are reported per identity in identity order: thread 0's program is a permutation, so sort by query text
+      let keyed := ((progs.headD []).map fun o => match o with | .findOrReg _ q _ => q.addr.getD 0 | _ => 0).zip sizes
+      let sorted := (keyed.toArray.qsort (fun a b => a.1 < b.1)).toList.map (·.2)
+      s!"ids {" ".intercalate (sorted.map toString)} kids {(idsForParent r.1 parent).length}"
+    | _, _, _, _ => "bad-case"
   | ["peerup", ser, pre, progs, sched, probes] =>
     -- the real `add_peer_config` call site: only the register is observable
     match ser.toNat?, (words pre).mapM parseOp, (progs.splitOn "/").mapM (fun p => (words p).mapM parseMicro),
